@@ -107,6 +107,8 @@ type FV struct {
 	ghostLoops map[*GhostStmt]map[int]bool
 	loopNest  map[int][]int // loop ordinal → ordinals of the enclosing loops
 	traceTypes map[string]types.Type
+	tables    map[*types.Var]*tableNode
+	strLits   map[string]string
 }
 
 // tagOK: a clause tagged with property ids belongs to the current verification only if it names the current
@@ -261,6 +263,9 @@ func (fv *FV) sortOf(t types.Type) string {
 			return x.Obj().Name()
 		}
 		if st, ok := x.Underlying().(*types.Struct); ok {
+			if isOpaqueStruct(x) {
+				return sInt // library objects (bytes.Buffer, …) are handled by reference, through ghost fields
+			}
 			return fv.structSort(x, st)
 		}
 		return fv.sortOf(x.Underlying())
@@ -731,4 +736,16 @@ func (fv *FV) paramHasNestedSlices() bool {
 		}
 	}
 	return false
+}
+
+var opaqueStructs = map[string]bool{"bytes.Buffer": true, "bufio.Reader": true, "strings.Reader": true, "sync.Pool": true, "sync.Mutex": true, "strings.Builder": true}
+
+// isOpaqueStruct: struct types of the standard library whose behaviour comes from assumed contracts over ghost
+// fields; a value of such a type embedded in another struct is identified with a reference to it.
+func isOpaqueStruct(t types.Type) bool {
+	n, ok := types.Unalias(t).(*types.Named)
+	if !ok || n.Obj().Pkg() == nil {
+		return false
+	}
+	return opaqueStructs[n.Obj().Pkg().Path()+"."+n.Obj().Name()]
 }
